@@ -1,4 +1,6 @@
 import TunnoxModel.Proofs.C17Mutex
+import TunnoxModel.Proofs.C17Evict
+import TunnoxModel.Proofs.C17Slot
 /-!
 # C17 — configured limits and quotas hold under concurrency
 
@@ -24,29 +26,29 @@ whatever storage operations and whatever mutex come before it —, then for ever
 occupancy within the cap, any number of concurrent requests and releases and every interleaving of
 their atomic steps: the cap holds after every step and a refused request changes nothing. -/
 theorem C17_main_atomic (P : Proto) (limit pre : Nat) (progs : List (Nat × List Op)) (σ : List Nat)
-    (hfin : P.final ≠ .plain) (hcas : P.final = .cas → P.early = true)
+    (hfin : P.final ≠ .plain) (hcas : P.final = .cas → P.early = true) (hfu : P.fused = false)
     (hpre : capOk P.zeroUnl limit pre = true) :
     holds P.zeroUnl limit pre (run P limit (init pre progs) σ).trace (run P limit (init pre progs) σ).occ = true :=
-  holds_of_base (invA_run hfin hcas σ _ (invA_init P limit pre progs hpre)).base
+  holds_of_base (invA_run hfin hcas hfu σ _ (invA_init P limit pre progs hpre)).base
 
 /-- Server-wide connection cap: `SessionManager.CreateConnection` as repaired (early check under
 `RLock`, `GetConnectionID()` in between, re-check and insert under `Lock`). -/
 theorem C17_conn (limit pre : Nat) (progs : List (Nat × List Op)) (σ : List Nat)
     (hpre : capOk true limit pre = true) :
     holds true limit pre (run protoConn limit (init pre progs) σ).trace (run protoConn limit (init pre progs) σ).occ = true :=
-  C17_main_atomic protoConn limit pre progs σ (by decide) (by decide) hpre
+  C17_main_atomic protoConn limit pre progs σ (by decide) (by decide) rfl hpre
 
 /-- Control-connection cap: `ClientRegistry.Register` (evict the oldest at the cap, one lock). -/
 theorem C17_ctrl (limit pre : Nat) (progs : List (Nat × List Op)) (σ : List Nat)
     (hpre : capOk true limit pre = true) :
     holds true limit pre (run protoCtrl limit (init pre progs) σ).trace (run protoCtrl limit (init pre progs) σ).occ = true :=
-  C17_main_atomic protoCtrl limit pre progs σ (by decide) (by decide) hpre
+  C17_main_atomic protoCtrl limit pre progs σ (by decide) (by decide) rfl hpre
 
 /-- Tunnel registry capacity: `TunnelRegistry.Register` (check and insert under one lock). -/
 theorem C17_tun (limit pre : Nat) (progs : List (Nat × List Op)) (σ : List Nat)
     (hpre : capOk true limit pre = true) :
     holds true limit pre (run protoTun limit (init pre progs) σ).trace (run protoTun limit (init pre progs) σ).occ = true :=
-  C17_main_atomic protoTun limit pre progs σ (by decide) (by decide) hpre
+  C17_main_atomic protoTun limit pre progs σ (by decide) (by decide) rfl hpre
 
 /-- Per-mapping concurrent-connection limit at atomic-instruction granularity:
 `acquireConnectionSlot` = `Load`, check, `CompareAndSwap(cur, cur+1)`, retry — any interleaving of the
@@ -54,41 +56,80 @@ loads and compare-and-swaps of any number of handlers (and of the releases by cl
 theorem C17_mapCas (limit pre : Nat) (progs : List (Nat × List Op)) (σ : List Nat)
     (hpre : capOk true limit pre = true) :
     holds true limit pre (run protoMapCas limit (init pre progs) σ).trace (run protoMapCas limit (init pre progs) σ).occ = true :=
-  C17_main_atomic protoMapCas limit pre progs σ (by decide) (by decide) hpre
+  C17_main_atomic protoMapCas limit pre progs σ (by decide) (by decide) rfl hpre
 
 /-- The same limit as the harness can schedule it (no stop between `Load` and `CompareAndSwap`). -/
 theorem C17_map (limit pre : Nat) (progs : List (Nat × List Op)) (σ : List Nat)
     (hpre : capOk true limit pre = true) :
     holds true limit pre (run protoMap limit (init pre progs) σ).trace (run protoMap limit (init pre progs) σ).occ = true :=
-  C17_main_atomic protoMap limit pre progs σ (by decide) (by decide) hpre
+  C17_main_atomic protoMap limit pre progs σ (by decide) (by decide) rfl hpre
 
 /-! ## Count-then-create inside one mutex (per-client quotas) -/
 
-/-- **C17, quotas, one service instance.** If the admission counts, checks and creates inside the
-mutex of the service instance (`mutex`, `early`, plain insert), then for any number of concurrent
-requests to that ONE instance `I`, any number of storage operations inside the critical section and
-every interleaving at storage-operation granularity (including releases that do not take the
-mutex): the quota holds after every step and a refused request changes nothing. -/
+/-- **C17, quotas, one service instance.** Serialisation hypothesis (this is ALL the proof uses about
+the locking): every quota-checked creation of the instance runs `Lock(); count; check; create; Unlock()`
+on ONE mutex of the service instance (`mutex`, `early`, plain insert; pinned to the source by
+`skel_CreateConnectionCode` / `skel_ActivateConnectionCode`: a single `codeQuotaMu` / `mappingQuotaMu`
+field locked before the count, unlocked by `defer`), and `sync.Mutex` excludes.  `Lock()` on a held
+mutex queues the request (`PC.waiting`); `Unlock()` hands the mutex to the first waiter (the order only
+decides WHICH waiter the model advances; the invariant does not depend on it).  Then for any number of
+concurrent requests to that ONE instance `I` — of this client (`acquire`) and of other clients (`other`,
+same mutex, not counted) —, any number of storage operations inside the critical section and every
+interleaving at storage-operation granularity (including releases that do not take the mutex): the
+quota holds after every step and a refused request changes nothing.  A scheme with one mutex per
+client whose map entry is dropped before `Unlock` is NOT an instance of this protocol (three requests:
+holder, waiter, newcomer on a fresh mutex) — such a change breaks the skeleton pins and is found by the
+N >= 3 racer schedules of the harness. -/
 theorem C17_main_mutex (P : Proto) (limit pre I : Nat) (progs : List (List Op)) (σ : List Nat)
-    (hm : P.mutex = true) (he : P.early = true) (hf : P.final = .plain)
+    (hm : P.mutex = true) (he : P.early = true) (hf : P.final = .plain) (hfu : P.fused = false)
     (hpre : capOk P.zeroUnl limit pre = true) :
     holds P.zeroUnl limit pre (run P limit (init pre (progs.map (fun p => (I, p)))) σ).trace
       (run P limit (init pre (progs.map (fun p => (I, p)))) σ).occ = true :=
-  holds_of_base (invB_run hm he hf σ _ (invB_init P limit pre I progs hpre)).base
+  holds_of_base (invB_run hm he hf hfu σ _ (invB_init P limit pre I progs hpre)).base
 
 /-- Quota on active connection codes: `CreateConnectionCode` (`codeQuotaMu`; `GetList`, n × `GetByID`,
 check, `GetByCode`, `Set`, `Set`, `AppendToList`). -/
 theorem C17_code (limit pre I : Nat) (progs : List (List Op)) (σ : List Nat) (hpre : capOk false limit pre = true) :
     holds false limit pre (run protoCode limit (init pre (progs.map (fun p => (I, p)))) σ).trace
       (run protoCode limit (init pre (progs.map (fun p => (I, p)))) σ).occ = true :=
-  C17_main_mutex protoCode limit pre I progs σ rfl rfl rfl hpre
+  C17_main_mutex protoCode limit pre I progs σ rfl rfl rfl rfl hpre
 
 /-- Quota on active mappings: `ActivateConnectionCode` (`mappingQuotaMu`; `GetClientPortMappings` +
 count + check, `CreatePortMapping`). -/
 theorem C17_mapq (limit pre I : Nat) (progs : List (List Op)) (σ : List Nat) (hpre : capOk false limit pre = true) :
     holds false limit pre (run protoMapq limit (init pre (progs.map (fun p => (I, p)))) σ).trace
       (run protoMapq limit (init pre (progs.map (fun p => (I, p)))) σ).occ = true :=
-  C17_main_mutex protoMapq limit pre I progs σ rfl rfl rfl hpre
+  C17_main_mutex protoMapq limit pre I progs σ rfl rfl rfl rfl hpre
+
+/-! ## Evict-oldest with the evicting thread parked inside the victim's `Close()` -/
+
+/-- **C17, control cap, `Close()` of the victim as a gate.** `ClientRegistry.Register` takes the
+registry lock, and at the cap picks the oldest connection, closes its stream and inserts — all in
+ONE critical section (`sections ≤ 1`; pinned by `lock_sections_ClientRegister`).  The thread may be
+stopped inside `Close()` for as long as the adversary likes: every other registration queues up in
+`Lock()` and is handed the lock in arrival order.  For every cap (0 = unlimited), every initial
+occupancy within it, any number of threads each issuing any number of registrations to the registry
+`I` and every interleaving: the cap holds after every step.  (Programs of registrations only: a
+removal takes the same lock and cannot land inside the section either.) -/
+theorem C17_ctrlX (P : Proto) (limit pre I : Nat) (ns : List Nat) (σ : List Nat)
+    (hm : P.mutex = true) (hfu : P.fused = true) (hs : P.sections ≤ 1) (hpre : capOk P.zeroUnl limit pre = true) :
+    holds P.zeroUnl limit pre
+      (run P limit (init pre (ns.map (fun n => (I, List.replicate n Op.acquire)))) σ).trace
+      (run P limit (init pre (ns.map (fun n => (I, List.replicate n Op.acquire)))) σ).occ = true :=
+  holds_of_base (invC_run hm hfu hs σ _ (invC_init P limit pre I ns hpre)).base
+
+/-- **Two critical sections (seeded regression `register-evict-then-insert-two-sections`).** Check and
+eviction in one critical section, `Close()` outside the lock, insert in a second critical section
+without a re-check: at the cap, B registers while A is inside `Close()` of its victim — B sees
+`cap-1`, inserts; A inserts too. -/
+theorem C17_ctrl_twoSections_witness :
+    holds true 1 1 (run protoCtrlX2 1 (init 1 [(0, [.acquire]), (0, [.acquire])]) [0, 1, 0]).trace
+      (run protoCtrlX2 1 (init 1 [(0, [.acquire]), (0, [.acquire])]) [0, 1, 0]).occ = false := by decide
+
+/-- The same schedule on the one-section protocol: B queues up behind A and evicts A's connection afterwards. -/
+example :
+    (run protoCtrlX 1 (init 1 [(0, [.acquire]), (0, [.acquire])]) [0, 1, 0, 1, 1]).trace
+      = [.stp 0 1, .blk 1 1, .adm 0 1 (some 0) 1, .stp 1 1, .adm 1 2 (some 1) 1] := by decide
 
 /-! ## What `holds` means -/
 
@@ -100,6 +141,7 @@ theorem good_of_step (zu : Bool) (limit : Nat) (s : SpecSt) (e : Ev) (h : (specS
   | nop t n => simp only [specStep, Bool.and_eq_true] at h; exact ⟨h.1.1, h.2⟩
   | ref t d n => simp only [specStep, Bool.and_eq_true] at h; exact ⟨h.1.1.1, h.2⟩
   | rel t i n => simp only [specStep, Bool.and_eq_true] at h; exact ⟨h.1.1.1, h.2⟩
+  | evi t i n => simp only [specStep, Bool.and_eq_true] at h; exact ⟨h.1.1.1, h.2⟩
   | adm t i v n =>
     cases v with
     | none => simp only [specStep, Bool.and_eq_true] at h; exact ⟨h.1.1.1, h.2⟩
@@ -143,7 +185,8 @@ theorem C17_refusal_of_holds (zu : Bool) (limit pre : Nat) (before after : List 
 
 /-- In the model a refusal touches neither the occupancy nor the item counter. -/
 theorem C17_refuse_stateless (P : Proto) (c : Cfg) (tid : Nat) :
-    (refuseCfg P c tid).occ = c.occ ∧ (refuseCfg P c tid).next = c.next := ⟨rfl, rfl⟩
+    (refuseCfg P c tid).occ = c.occ ∧ (refuseCfg P c tid).next = c.next :=
+  ⟨unlockCfg_occ P _ _, unlockCfg_next P _ _⟩
 
 /-! ## Defects: the protocols as found, and what remains -/
 
@@ -266,6 +309,15 @@ theorem flow_ClientRegister : Gen.Flow.L17_ClientRegister = [
   "r.logger.Debugf(\"ClientRegistry: registered connection %s (clientID=%d, authenticated=%v)\", conn.ConnID, conn.ClientID, conn.Authenticated)",
   "return nil"
 ] := by decide +kernel
+
+/-- ONE critical section around check + evict + insert: the registry lock is taken once, released
+once (by `defer`), and the eviction (`removeConnectionLocked`, which closes the victim's stream) and
+the insert both sit after the `Lock` — the number of `mu.Lock … mu.Unlock` pairs is 1. -/
+theorem lock_sections_ClientRegister :
+    (Gen.Flow.L17_ClientRegister.filter (· == "r.mu.Lock()")).length = 1 ∧
+    (Gen.Flow.L17_ClientRegister.filter (· == "defer r.mu.Unlock()")).length = 1 ∧
+    (Gen.Flow.L17_ClientRegister.filter (· == "r.mu.Unlock()")).length = 0 ∧
+    protoCtrlX.sections = (Gen.Flow.L17_ClientRegister.filter (· == "r.mu.Lock()")).length := by decide +kernel
 
 theorem flow_findOldest : Gen.Flow.L17_findOldest = [
   "var oldestConn *ControlConnection",
@@ -393,6 +445,47 @@ theorem C17_code_steps :
   refine ⟨by decide, ?_⟩
   intro n; simp [protoCode, Gen.Skel.L17_CodeGetByID]
 
+/-! ## The slot across the life of its tunnel (close events interleaved with `handleConnection`) -/
+
+/-- **C17, slot life cycle.** For every limit (0 = unlimited), any number of connections and EVERY
+interleaving of the three steps of each `handleConnection` (take the slot … `RegisterTunnel` …
+`Start`) with `Tunnel.Close` events on any tunnel at any time — in particular a close that lands
+between `RegisterTunnel` and `Start` —: no slot is taken while `limit` slots are held, the number
+of live tunnels reported after every event is the reference number and within the limit. -/
+theorem C17_slot_main (limit : Nat) (σ : List C17Slot.Sch) :
+    C17Slot.holds limit (C17Slot.run true limit C17Slot.init σ).trace = true :=
+  (C17Slot.inv_run σ _ (C17Slot.inv_init limit)).good
+
+/-- **The slot counter is never negative and never above the limit**, and at least the number of
+live tunnels, after every prefix of every such interleaving (`run … σ` for every `σ`). -/
+theorem C17_slot_counter (limit : Nat) (σ : List C17Slot.Sch) :
+    0 ≤ (C17Slot.run true limit C17Slot.init σ).cnt ∧
+    (limit = 0 ∨ (C17Slot.run true limit C17Slot.init σ).cnt ≤ limit) ∧
+    ((C17Slot.run true limit C17Slot.init σ).tunnels.length : Int) ≤ (C17Slot.run true limit C17Slot.init σ).cnt := by
+  have h := C17Slot.inv_run σ _ (C17Slot.inv_init limit)
+  refine ⟨?_, h.cap, ?_⟩ <;> rw [h.cnt] <;> omega
+
+/-- **Release without `sync.OnceFunc` (seeded regression `mapping-slot-released-twice`).** The tunnel
+of connection 0 is closed between `RegisterTunnel` and `Start`: `OnClosed` gives the slot back,
+`Start` fails, the deferred clean-up gives it back again — the counter is −1 … -/
+theorem C17_slot_twice_witness :
+    (C17Slot.run false 1 C17Slot.init [.step 0, .step 0, .close 0, .step 0]).cnt = -1 := by decide
+
+/-- … and two further connections are then admitted at limit 1. -/
+theorem C17_slot_twice_exceeds :
+    C17Slot.holds 1 (C17Slot.run false 1 C17Slot.init
+      [.step 0, .step 0, .close 0, .step 0, .step 1, .step 1, .step 1, .step 2, .step 2]).trace = false := by decide
+
+/-- The same history with the `OnceFunc`: the third connection is refused. -/
+example :
+    (C17Slot.run true 1 C17Slot.init
+      [.step 0, .step 0, .close 0, .step 0, .step 1, .step 1, .step 1, .step 2, .close 1, .step 2]).trace
+      = [.acq 0 0, .reg 0 1, .cls 0 0, .fal 0 0, .acq 1 0, .reg 1 1, .sta 1 1, .ref 2 1, .cls 1 0] := by decide
+
+/-- `holds` for slots rejects an acquisition at the limit and a live count above it. -/
+example : C17Slot.holds 1 [.acq 0 0, .acq 1 0] = false := by decide
+example : C17Slot.holds 1 [.acq 0 0, .reg 0 1, .cls 0 0, .acq 1 0, .reg 1 1] = true := by decide
+
 /-! ## Non-vacuity -/
 
 /-- Three admissions race at `limit-1 = 1` of 2 through `CreateConnection`: one is admitted at the
@@ -406,11 +499,21 @@ example :
     (run protoCtrl 2 (init 2 [(0, [.acquire, .release]), (0, [.acquire])]) [0, 1, 0]).trace
       = [.adm 0 2 (some 0) 2, .adm 1 3 (some 1) 2, .rel 0 2 1] := by decide
 
-/-- The code quota: the second request waits for the mutex, then counts 2 of 2 and is refused. -/
+/-- The code quota: the second request queues up in `Lock()`, is handed the mutex by the `Unlock()`
+of the first, then counts 2 of 2 and is refused. -/
 example :
-    (run protoCode 2 (init 1 [(0, [.acquire]), (0, [.acquire])]) [0, 1, 0, 0, 0, 0, 0, 0, 1, 1, 1, 1]).trace
+    (run protoCode 2 (init 1 [(0, [.acquire]), (0, [.acquire])]) [0, 1, 0, 0, 0, 0, 0, 0, 1, 1, 1]).trace
       = [.stp 0 1, .blk 1 1, .stp 0 1, .stp 0 1, .stp 0 1, .stp 0 1, .stp 0 1, .adm 0 1 none 2,
-         .stp 1 2, .stp 1 2, .stp 1 2, .ref 1 false 2] := by decide
+         .stp 1 2, .stp 1 2, .ref 1 false 2] := by decide
+
+/-- Three activations of one client at occupancy `limit-2` plus one of another client, the schedule
+of the seeded regression (A holds, B queued, A leaves, B counts, C arrives, B creates, C counts): the
+third request stays queued behind B and is refused afterwards. -/
+example :
+    (run protoMapq 2 (init 0 [(0, [.acquire]), (0, [.acquire]), (0, [.acquire]), (0, [.other])])
+        [0, 1, 0, 0, 1, 2, 3, 2, 1, 2, 3, 3]).trace
+      = [.stp 0 0, .blk 1 0, .stp 0 0, .adm 0 0 none 1, .stp 1 1, .blk 2 1, .blk 3 1, .blk 2 1, .adm 1 1 none 2,
+         .ref 2 false 2, .stp 3 2, .stp 3 2] := by decide
 
 /-- `holds` rejects exceeding the cap, a refusal that changed the occupancy, a refusal that changed
 other state, a wrong final state; it accepts unlimited growth when 0 means unlimited. -/
